@@ -486,11 +486,13 @@ func continuation(st *Store, ids *IDMap) []afterRec {
 		out = append(out, ar)
 	}
 	step(Cmd{"name": "list", "mode": "json"}, false, nil)
+	// (people re-run `init` when something looks wrong: it must not make it worse)
+	step(Cmd{"name": "init", "mode": "json"}, false, nil)
 	step(cNewTask("title", "after crash"), true, func(o *Obs) bool { _, ok := o.Post[o.Reply.ID]; return ok && o.Reply.ID != "" })
 	var newID string
 	if len(out) > 0 {
 		for id := range out[len(out)-1].View {
-			if _, had := out[0].View[id]; !had {
+			if _, had := out[1].View[id]; !had {
 				newID = id
 			}
 		}
